@@ -20,7 +20,7 @@ RULE = ('case = seeded interleaving of client programs (build, write, mutate or 
         'write was preceded by at least one op of another file or an earlier write of its own file; distinct = case digest')
 
 
-def client_program(rng, c, avoid, hc_names):
+def client_program(rng, c, avoid, hc_names, shared_pool=None):
     spec = gen.Spec(rng, fid='f%d' % c, px='c%d_' % c, client=c)
     gen.simple_file(rng, spec=spec, mrl=gen.record_length(rng, small=0.3), n_lf=1, max_width=4, hc=hc_names,
                     dtypes=['u1', 'u2', 'u4', 'f4', 'f8'] if hc_names else None,
@@ -35,7 +35,7 @@ def client_program(rng, c, avoid, hc_names):
                 op['now'] = '20%02d-0%d-1%dT0%d:11:12.%06d' % (rng.randint(10, 30), rng.randint(1, 9), rng.randint(0, 9),
                                                               rng.randint(0, 9), rng.randint(0, 999999))
                 op['rng_seed'] = rng.randrange(1 << 30)
-    m = genmeta.populate(spec, lfi, rng, n=rng.choice([1, 3, 5, 8]), hc=hc_names, p_attr=0.4,
+    m = genmeta.populate(spec, lfi, rng, n=rng.choice([1, 3, 5, 8]), hc=hc_names, p_attr=0.4, shared_pool=shared_pool,
                          kinds=['zone', 'axis', 'parameter', 'computation', 'equipment', 'tool', 'calibration_coefficient',
                                 'well_reference_point', 'message', 'comment', 'long_name', 'path', 'splice'])
     prog = list(spec.ops)
@@ -132,7 +132,8 @@ def client_program(rng, c, avoid, hc_names):
 def gen_case(rng, tier, avoid):
     nc = rng.choice([1, 2, 2, 3])
     use_hc = rng.random() < 0.25
-    progs = [client_program(rng, c, avoid, use_hc) for c in range(nc)]
+    pool = {} if rng.random() < 0.3 else None      # the clients pass the same dict / AttrSetup objects to their files
+    progs = [client_program(rng, c, avoid, use_hc, shared_pool=pool) for c in range(nc)]
     # seeded scheduler: interleave the programs
     hist, sched = [], []
     idx = [0] * nc
